@@ -1,5 +1,5 @@
 import LexVerif.Props.C13
-import LexVerif.Proof.SepGen10
+import LexVerif.Proof.SepEnable4
 /-!
 # C13 (continued) — `strip_preserves` beyond the all-I+L+T+C class
 
@@ -87,6 +87,22 @@ theorem insert_preserves_seps (c : Cfg) (o : POpts) (hG : GenStrip c o) (hO : Op
     ∃ n, parseFloatSyntax c o false s fv = .ok (.number n s.length) ∧ NumRel c n n' ∧
       numberBits c f n = numberBits c f n' :=
   insert_preserves_gen c o hG hI hF s hb hP (nonStuck_of_sepsOnlyIn c o hG hO s hS) fv n' cnt f h
+
+/-- **R3 with the documented position rules, every flag combination but I+T+C.** `DocEnabled c o s`: the integer part of
+`s` (behind the optional sign, up to the first byte that is neither digit nor separator), the fraction part (behind the
+decimal point) and the exponent part (behind the exponent character and its optional sign) consist of digits and
+separators, and every separator in them is at a position the flags of the component enable — a digit of the component
+before and after it (through separators): needs I; only after: L; only before: T; next to another separator: C
+(`DocEnabledAt`, docs/DigitSeparators.md). Then: if the stripped input is accepted as a number, so is `s`, as the same
+number with the same value. (`Proof/SepEnable*.lean`: an enabled run is skipped by every one of the 15 `peek`
+variants — `enabled_holds` —, hence no iterator stops on a separator.) -/
+theorem insert_preserves_doc (c : Cfg) (o : POpts) (hG : GenStrip c o) (hI : c.skip .integer ≠ .pred .itc)
+    (hF : c.skip .fraction ≠ .pred .itc) (s : List Nat) (hb : ∀ x ∈ s, x < 256) (hP : NoSepBeforeSign c s)
+    (hD : DocEnabled c o s) (fv : Bool) (n' : Number) (cnt : Nat) (f : Fmt)
+    (h : parseFloatSyntax c o false (nonSep c s) fv = .ok (.number n' cnt)) :
+    ∃ n, parseFloatSyntax c o false s fv = .ok (.number n s.length) ∧ NumRel c n n' ∧
+      numberBits c f n = numberBits c f n' :=
+  insert_preserves_gen c o hG hI hF s hb hP (nonStuck_of_docEnabled c o hG s hD) fv n' cnt f h
 
 /-- `GenStrip` for the concrete formats `cfgOf bits` (radix 10, `_`, STANDARD flags) with the default options -/
 theorem genStrip_cfgOf (bits : Nat) (hreach : ∀ k, (cfgOf bits).skip k ≠ .unreachable)
@@ -202,5 +218,26 @@ example : ¬ SepsOnlyIn cMixA {} [49,95,50,46,51,52] ∧
   refine ⟨fun h => ?_, by decide⟩
   have := h.int (by decide) 95 (by decide)
   revert this; decide
+
+/-- non-vacuity of `insert_preserves_doc`, internal-only class (`c13_dec_uni_i`): `-1_2.3_4e+1_0` — every separator
+between two digits of its component; integer part `[1,4)`, fraction part `[5,8)`, exponent part `[10,13)` -/
+example : DocEnabled (cUni true false false false) {} [45,49,95,50,46,51,95,52,101,43,49,95,48] :=
+  ⟨4, partEnabled_of_B _ _ _ _ _ _ (by decide),
+   fun _ => ⟨8, partEnabled_of_B _ _ _ _ _ _ (by decide),
+     fun x hx _ => ⟨13, by
+       have : x = 101 := by simpa using hx.symm
+       exact partEnabled_of_B _ _ _ _ _ _ (by decide)⟩⟩,
+   fun h => absurd (by decide) h⟩
+
+/-- … a leading separator is not enabled by the internal flag: `_12` violates the rule (and is rejected) -/
+example : ¬ DocEnabledAt (cUni true false false false) ((cUni true false false false).sepFlags .integer) [95,49,50] 0 ∧
+    (parseFloatSyntax (cUni true false false false) {} false [95,49,50]).toBool = false := by
+  refine ⟨by decide, by decide⟩
+
+/-- leading+trailing+consecutive (`c13_dec_uni_ltc`): `__12__.__5__` -/
+example : DocEnabled (cUni false true true true) {} [95,95,49,50,95,95,46,95,95,53,95,95] :=
+  ⟨6, partEnabled_of_B _ _ _ _ _ _ (by decide),
+   fun _ => ⟨12, partEnabled_of_B _ _ _ _ _ _ (by decide), fun x hx _ => by simp at hx⟩,
+   fun h => absurd (by decide) h⟩
 
 end LexVerif.Props.C13
